@@ -213,7 +213,7 @@ def run(ctx):
         for b, t in idc:
             ctx.requires("C19.G.leading-segment-only-if-not-global", f, b, "segments[0].ident lookup", [r"is_some\(self\.leading_colon\)=False", ("ne", r"^len\(self\.segments\)$", 0)])
             a0 = ctx.expr(f, t["args"][0])
-            ctx.ob("C19.G.first-segment", f.key, "segment index", re.search(r"index\(self\.segments, 0_usize\)\.ident$", a0) is not None, a0[:120])
+            ctx.ob("C19.G.first-segment", f.key, "segment index", re.search(r"^self\.segments\[0\]\.ident$", a0) is not None, a0[:120])
         fold = ctx.find_calls(f, r"Iterator>::fold|Iterator::fold")
         ok = len(fold) == 1 and "iter(self.segments)" in ctx.expr(f, fold[0][1]["args"][0]).replace("syn::punctuated::Punctuated::<T, P>::", "")
         ctx.ob("C19.P.arguments-of-every-segment", f.key, "segments.iter().fold(.., arguments walk)", ok, "%s" % [ctx.expr(f, t["args"][0])[:100] for _, t in fold])
